@@ -108,9 +108,12 @@ def np_call(interp, name, args, kwargs, fr):
             widths = tuple(widths.items)
         if len(a.shape) != 1 or not (isinstance(widths, tuple) and len(widths) == 2 and widths[0] == 0):
             raise Unsupported("np.pad other than appending to a 1-D array")
-        T.add("numpy: pad(a, (0, N), mode) is a followed by N items (N >= 0); the appended values are not interpreted")
+        T.add("numpy: pad(a, (0, N), 'linear_ramp') is a followed by N items (N >= 0; ValueError for an empty a with N > 0); the appended values are not interpreted")
         N = zint(widths[1])
         la = zint(a.shape[0])
+        # numpy refuses to extend an EMPTY axis with any mode but 'constant' / 'empty'
+        if not fr.spec and not interp.run.branch(z3.Not(z3.And(la == 0, N > 0))):
+            interp.py_raise("ValueError")
         w = dtype_width(a.dtype) or 1
         tag = fresh_name("padfill")
         fills = [z3.Function(f"{tag}_{k}", z3.IntSort(), z3.IntSort()) for k in range(w)]
